@@ -866,6 +866,15 @@ def judge_cli(case, obs):
     names = case["names"]
     if obs["canary"]:
         return "CANARY created (%r): a file name was executed as code" % (obs["canary"],)
+    if case.get("expect_status") is not None:
+        # an expression that cannot be evaluated with the values as DATA (e.g. text compared with a number): an evaluation
+        # error, whatever the names would mean if they were pasted in as code
+        if obs["status"] != case["expect_status"]:
+            return "status %r, expected %r: the expression has no value when the file-derived values are data; stderr %r" % (
+                obs["status"], case["expect_status"], obs["stderr"][-200:])
+        if any(new.startswith("zzsel_") or new.startswith("zzord_") for new in obs["renamed"].values()):
+            return "files were renamed although the expression cannot be evaluated: %r" % (sorted(obs["renamed"].values())[:4],)
+        return None
     if obs["status"] != 0:
         return "status %r (expected 0): the expression could not be evaluated for some file name; stderr: %r" % (
             obs["status"], obs["stderr"])
@@ -921,6 +930,12 @@ def part_cli(chk, rng, n, stats):
     fixed = [{"kind": "cli", "names": spread, "position": "sort", "expr": e, "invert": inv}
              for e in ("%Dir(), %Name()", "%Dir().parts, %Size(), %Name()", "str(%Dir()), %Name()") for inv in (False, True)]
     fixed += [{"kind": "cli", "names": spread, "position": "filter", "expr": "%Dir() == PosixPath('.')", "invert": False}]
+    # expressions that fail when the values are data; some of the names would make them succeed (or run code) if pasted plainly
+    codey = [[".", "12.txt", 6], [".", "99", 7], [".", "__import__('os').mkdir('CANARY') or 99.txt", 8], [".", "True", 9], [".", "plain.txt", 6],
+             [".", "open('CANARY','w') and 7", 7], [".", "[].txt", 6]]
+    for pos, e in (("filter", "%Base() > 10"), ("filter", "%Name() + 1 > 0"), ("filter", "int(%Base()) > 10"), ("sort", "%Base() + 1"),
+                   ("sort", "(-%Name())"), ("filter", "%Base() and %Base() < 5")):
+        fixed.append({"kind": "cli", "names": codey, "position": pos, "expr": e, "invert": False, "expect_status": 4})
     for i in range(n + len(fixed)):
         case = fixed[i] if i < len(fixed) else gen_cli_case(rng, "filter" if i % 2 == 0 else "sort")
         obs = run_cli_case(case)
